@@ -94,6 +94,21 @@ def run(tier, seed, work, replay):
         sg = {"action": ev2["ev"], "guards": d["guards"], "setting": "burst10-rate40"}
         if res.classify(sg, {"event": ev2, "origin": "bucket burst 10 rate 40"}, known) == "violation":
             res.sample({"deviation": d, "event": ev2})
+    # a third setting: a rate below one per second (here 0). AS BUILT the loader raises it to one per second (its floor) -
+    # more than the operator wrote, which the specification takes as it is (RatePerSec = 1); anything above that is not
+    cases3 = [{"kind": "bucket", "burst": 10, "rate": 0, "sequential": 60 if tier == "quick" else 200, "pauseEvery": 20, "pauseMs": 2500,
+               "concurrentEach": 10 if tier == "quick" else 60}]
+    cp3 = work.path("cases-b10r0.ndjson")
+    E.write_ndjson(cp3, cases3)
+    ep3, _ = E.run_harness(binary, PROP, work, cases=cp3, events=work.path("events-b10r0.ndjson"))
+    evs3 = E.read_ndjson(ep3)
+    for d in E.monitor(work, "Trace_KMThrottle", "Trace_KMThrottle_b10r0.cfg", ep3, cov, tag="Trace_KMThrottle-b10r0"):
+        ev3 = evs3[d["line"] - 1]
+        sg = {"action": ev3["ev"], "guards": d["guards"], "setting": "burst10-rate0"}
+        if res.classify(sg, {"event": ev3, "origin": "bucket burst 10 rate 0 (floor: 1 per second)"}, known) == "violation":
+            res.sample({"deviation": d, "event": ev3})
+    cov["third_setting_attempts"] = sum(1 for e in evs3 if e["ev"] == "Attempt")
+    cov["third_setting_backend_reached"] = sum(1 for e in evs3 if e["ev"] == "Attempt" and e["called"])
     cov["second_setting_attempts"] = sum(1 for e in evs2 if e["ev"] == "Attempt")
     cov["second_setting_backend_reached"] = sum(1 for e in evs2 if e["ev"] == "Attempt" and e["called"])
     cov["traces_validated_against_impl"] = len(cases) + 1
